@@ -201,6 +201,17 @@ def check_nav(c, st):
         except uu.URLParseError:
             st.count('prepared-reference-objects-whose-text-does-not-parse')
             return False
+    # somebody else in the process uses the public parse_url() helper on the same texts and takes its result apart
+    # (the dict it returns is the caller's): nothing URL() / navigate() do afterwards may depend on that
+    for text_ in [base] + [r_ for r_ in refs if isinstance(r_, str)]:
+        try:
+            d_ = uu.parse_url(text_)
+            if isinstance(d_, dict):
+                for k_ in list(d_):
+                    d_[k_] = None if k_ != 'path' else '/zz-scribbled/../x'
+                d_['zz-extra'] = 1
+        except Exception:
+            pass
     try:
         b = uu.URL(base)
         if c.get('prep') == 'normalize':
